@@ -324,7 +324,8 @@ def _builtin_histories(self, tier, seed):
         "decay_general_shifted_irf": ([DecayMegacomplex], {"megacomplex": {"m": {"type": "decay", "k_matrix": ["km"]}}, "k_matrix": {"km": {"matrix": {("s2", "s1"): "k.1", ("s2", "s2"): "k.2"}}}, "initial_concentration": {"j": {"compartments": ["s1", "s2"], "parameters": ["j.1", "j.0"]}}, "irf": shifted, "dataset": {"d": {"megacomplex": ["m"], "irf": "irf1", "initial_concentration": "j"}}}),
         "oscillation_and_artifact_irf": ([DampedOscillationMegacomplex, CoherentArtifactMegacomplex], {"megacomplex": {"o": {"type": "damped-oscillation", "labels": ["o1"], "frequencies": ["osc.f"], "rates": ["k.1"]}, "a": {"type": "coherent-artifact", "order": 2}}, "irf": irf, "dataset": {"d": {"megacomplex": ["o", "a"], "irf": "irf1"}}}),
     }
-    pars = {"k": [0.6, 0.15], "irf": [["c", 0.4], ["w", 0.3], ["s0", 0.0], ["s1", 0.05], ["s2", -0.05]], "j": [["1", 1.0, {"vary": False}], ["0", 0.0, {"vary": False}]], "osc": [["f", 3.0]]}
+    specs["decay_parallel_expression"] = ([DecayParallelMegacomplex], {"megacomplex": {"m": {"type": "decay-parallel", "compartments": ["s1", "s2"], "rates": ["k.1", "kx.2"]}}, "irf": irf, "dataset": {"d": {"megacomplex": ["m"], "irf": "irf1"}}})
+    pars = {"kx": [["2", 0.15, {"expr": "$k.1 * 0.25"}]], "k": [0.6, 0.15], "irf": [["c", 0.4], ["w", 0.3], ["s0", 0.0], ["s1", 0.05], ["s2", -0.05]], "j": [["1", 1.0, {"vary": False}], ["0", 0.0, {"vary": False}]], "osc": [["f", 3.0]]}
     out = []
     for name, (mcs, spec) in specs.items():
         try:
@@ -363,6 +364,17 @@ def _builtin_histories(self, tier, seed):
                 fresh = np.array(opt2.objective_function(x0.copy()), copy=True)
                 if not np.array_equal(fresh, f0):
                     bad.append({"history": "fresh_optimizer"})
+                # a second optimizer on *other* parameter values, created and evaluated while the first is alive
+                caller_before = [(q.label, float(q.value), q.expression, q.vary) for q in parameters.all()]
+                other = Parameters.from_dict({**pars, "k": [2.0, 0.9]})
+                opt3 = Optimizer(Scheme(model=model, parameters=other, data={"d": data}, add_svd=False), verbose=False, raise_exception=True)
+                opt3._free_parameter_labels = list(labels)
+                opt3.objective_function(np.asarray(other.get_label_value_and_bounds_arrays(exclude_non_vary=True)[1], dtype=float))
+                again = np.array(opt.objective_function(x0.copy()), copy=True)
+                if not np.array_equal(again, f0):
+                    bad.append({"history": "another_optimizer_alive_on_other_values", "penalty_then": f0[:4].tolist(), "penalty_now": again[:4].tolist()})
+                if [(q.label, float(q.value), q.expression, q.vary) for q in parameters.all()] != caller_before:
+                    bad.append({"history": "callers_parameters_changed_by_another_optimizer"})
             out.append({"name": "bounded_builtin_megacomplexes_penalty_at_a_point_independent_of_history", "ok": not bad, "case": name, "function": "glotaran.optimization.optimizer:Optimizer.objective_function", "witness": {"model": name, "x0": x0.tolist(), "failures": bad} if bad else None, "detail": "native histories on builtin megacomplexes (bounded stand-in)"})
         except Exception as e:
             import traceback
